@@ -1114,8 +1114,9 @@ func (m *Nitro) LoadFromDisk(dir string, concurr int, callb ItemCallback) (*Snap
 				for {
 					itm, err := r.ReadItem()
 					if err != nil {
+						// Keep consuming shards, the feeder blocks otherwise
 						errors[shard] = err
-						return
+						break loop
 					}
 
 					if itm == nil {
@@ -1196,8 +1197,9 @@ func (m *Nitro) LoadFromDisk(dir string, concurr int, callb ItemCallback) (*Snap
 					for {
 						itm, err := r.ReadItem()
 						if err != nil {
+							// Keep consuming shards, the feeder blocks otherwise
 							errors[shard] = err
-							return
+							break loop
 						}
 
 						if itm == nil {
